@@ -272,6 +272,25 @@ func (view *View) groupAll(ctx context.Context, flags *option.Flags) error {
 }
 
 func (view *View) Having(ctx context.Context, scope *ReferenceScope, clause parser.HavingClause) error {
+	if !view.isGrouped && view.RecordLen() < 1 {
+		// With no records the filter is never evaluated, so the view would stay ungrouped and the
+		// select clause would later produce the row of the empty group without having tested it.
+		hasAggregateFunction, err := HasAggregateFunction(clause.Filter, scope)
+		if err != nil {
+			return err
+		}
+		if hasAggregateFunction {
+			if err = view.group(ctx, scope, nil); err != nil {
+				return err
+			}
+			record := make(Record, view.FieldLen())
+			for i := range record {
+				record[i] = make(Cell, 0)
+			}
+			view.RecordSet = append(view.RecordSet, record)
+		}
+	}
+
 	err := view.filter(ctx, scope, clause.Filter)
 	if err != nil {
 		if _, ok := err.(*NotGroupingRecordsError); ok {
